@@ -3,6 +3,11 @@
    allocated for the data key is closed when it returns (C09_data_key_released); for every history, no SDK
    operation ever reopens a released secret or changes a secret's content, and key objects keep their secret
    (C09_secrets_monotone).
+   PROVED over all histories, for sessions with key caching disabled (C09_nocache_decrypt_releases_everything): whatever a
+   Decrypt does - any record, any tampering, any fault plan, success or failure - every secret it allocated (system key,
+   intermediate key) is closed when it returns, and no secret or key object that existed before the call is touched
+   (Envelope/Release.v: ownership invariant with exact reference counts through loadSystemKey / getOrLoadSystemKey /
+   intermediateKeyFromEKR / loadIntermediateKey / decryptRow and their deferred Closes).
    The full accounting statement (every secret released exactly once after Close) is REFUTED on the faithful model:
    known finding C09-J, witness below; everything else about accounting is decided by the trace correspondence. *)
 From Asherah Require Import Envelope.Session Envelope.Frame Envelope.Local Envelope.FrameInst Envelope.Rotation.
@@ -24,3 +29,26 @@ Theorem C09_accounting_refuted_parent_mismatch :
   live_secrets (h_world (snd (hrun (hinit t0) witness_leak))) <> [].
 Proof. exact C09_refuted_parent_mismatch_leak. Qed.
 Print Assumptions C09_accounting_refuted_parent_mismatch.
+
+From Asherah Require Import Envelope.Coherent Envelope.Release.
+
+Theorem C09_nocache_decrypt_releases_everything : forall svc prod t0 ops s rec muts faults,
+  Forall (benign svc prod) ops ->
+  let h := snd (hrun (hinit t0) ops) in
+  (forall x fa, nth_error (w_sessions (h_world h)) s = Some x -> nth_error (w_factories (h_world h)) (ss_factory x) = Some fa ->
+                fa_sk fa = None /\ ss_ik x = None) ->
+  let w := h_world h in
+  let w' := h_world (snd (hstep h (HDecrypt s rec muts faults))) in
+  (forall sid, (sid < List.length (w_secrets w))%nat -> nth_error (w_secrets w') sid = nth_error (w_secrets w) sid) /\
+  (forall sid sc, (List.length (w_secrets w) <= sid)%nat -> nth_error (w_secrets w') sid = Some sc -> s_closed sc = true) /\
+  (forall k, (k < List.length (w_kobjs w))%nat -> nth_error (w_kobjs w') k = nth_error (w_kobjs w) k).
+Proof. exact nocache_decrypt_releases_everything. Qed.
+Print Assumptions C09_nocache_decrypt_releases_everything.
+
+(* the premise holds for a session of a factory whose policy disables key caching, and the Decrypt there allocates two secrets *)
+Example C09_nocache_nonvacuous :
+  let h := snd (hrun (hinit Rotation.t0) nocache_ops) in
+  Forall (benign (s "svc") (s "prod")) nocache_ops /\ premise_b h 0 = true /\
+  fst (fst (hstep h (HDecrypt 0 0 [] []))) = ODec (Some 7%nat) /\
+  List.length (w_secrets (h_world (snd (hstep h (HDecrypt 0 0 [] []))))) = (List.length (w_secrets (h_world h)) + 2)%nat.
+Proof. exact nocache_nonvacuous. Qed.
